@@ -86,6 +86,9 @@ def run(ctx: core.Ctx):
     for ci, case in enumerate(cases):
         expected = {k: v for (c, k), v in exp.items() if c == ci}
         if len(expected) == 0:
+            if case["engine"]["name"].startswith("random-") and ctx.extra.get("cases_dropped_overflow"):
+                ctx.extra["random_engines_without_expectation"] = ctx.extra.get("random_engines_without_expectation", 0) + 1
+                continue        # the exact arithmetic of this seeded engine left TLC's 32-bit integers: dropped, counted
             raise MachineryError(f"no expectation for case {ci} ({case['engine']['name']})")
         bad = replay_case(fl, case, expected, ctx, tie_ok=tie_tolerant)
         nrows += len(expected)
